@@ -34,9 +34,9 @@ const STRS: &[&str] = &[
 
 const REGEXES: &[&str] = &["a+", "([^/]+)/", "\\.py$", "(é|ü)", "x*", "\"q\"", "\\\\", "[{}]", "\\s;"];
 
-struct FreeGen<'r> {
-    rng: &'r mut Rng,
-    caps: Vec<String>,
+pub struct FreeGen<'r> {
+    pub rng: &'r mut Rng,
+    pub caps: Vec<String>,
 }
 
 impl<'r> FreeGen<'r> {
@@ -174,7 +174,7 @@ impl<'r> FreeGen<'r> {
             _ => StmtKind::For(GUVar::new(&self.name()), self.expr(2), self.block(depth + 1)),
         })
     }
-    fn file(&mut self) -> GFile {
+    pub fn file(&mut self) -> GFile {
         let mut items = Vec::new();
         let mut used_globals = Vec::new();
         let mut used_short = Vec::new();
